@@ -11,7 +11,7 @@ EmitDoc ==
   THEN PrintT(ToJson([toks |-> toks, text |-> Text(toks), depth |-> Depth(toks), idepth |-> InlinedDepth(toks),
                       fields |-> FieldCount(toks), lims |-> LimitPairs(toks), nmut |-> NMut(toks),
                       implF |-> ImplFields(toks, FALSE), implD |-> ImplDepthMax(toks, FALSE),
-                      implFx |-> ImplFields(toks, TRUE), implDx |-> ImplDepthMax(toks, TRUE)]))
+                      implFx |-> ImplFields(toks, TRUE), implDx |-> ImplDepthMax(toks, TRUE), implTx |-> ImplTotalDepth(toks, TRUE)]))
   ELSE TRUE
 GenConstraint == EmitDoc
 \* constants of the specification that direct the driver's bounded enumeration and deep-nesting inputs
